@@ -872,7 +872,11 @@ func oneD(in *instances, k string, r *prng) (gozxing.Writer, gozxing.Reader, goz
 	case "code128":
 		f, c = gozxing.BarcodeFormat_CODE_128, text(r, 1+r.intn(30), r.intn(3))
 	case "itf":
-		f, c = gozxing.BarcodeFormat_ITF, digits(r, 2*(3+r.intn(5)))
+		n := 2 * (3 + r.intn(5))
+		if r.intn(3) == 0 {
+			n = 2 * (8 + r.intn(14)) // longer than the largest default length (14): allowed as well
+		}
+		f, c = gozxing.BarcodeFormat_ITF, digits(r, n)
 	case "codabar":
 		f, c = gozxing.BarcodeFormat_CODABAR, "A"+digits(r, 2+r.intn(12))+"B"
 	}
